@@ -585,6 +585,9 @@ func runC06(c *core.Check) {
 							c.Pass("C06.id-writers", "literal:"+fn, x.Pos(), "the creator of child objects")
 						case fn == "d2graph.NewGraph" && isEmptyString(info, kv.Value):
 							c.Pass("C06.id-writers", "literal:"+fn, x.Pos(), "the root object, ID \"\"")
+						case strings.HasSuffix(c.P.Fset.Position(fi.Decl.Pos()).Filename, "/d2graph/serde.go"):
+							// the wire format restores IDs that the other side generated; it is not on the compile path
+							c.Except("C06.id-writers", "literal:"+fn, x.Pos(), "deserialisation of the plugin wire format: the ID was generated by newObject (or by a layout) on the sending side and is copied, not made")
 						default:
 							c.Fail("C06.id-writers", "literal:"+fn, x.Pos(), "an Object with an explicit ID is created outside newObject/NewGraph on the compile path")
 						}
